@@ -48,6 +48,8 @@ func TestVerif_C16(t *testing.T) {
 	w := verifgen.NewWallet(f.net.Label, rng, &f.net.Custodian, 5)
 	assets := verifgen.Assets()
 	unknownCount := 0
+	var finalSubmits []crypto.Hash // finalized withdrawal submissions
+	claimNo := 0
 
 	rounds := r.N(120, 6000)
 	delivered, finalizedCount, notFinal := 0, 0, 0
@@ -100,6 +102,7 @@ func TestVerif_C16(t *testing.T) {
 		k := 1 + rng.Intn(4)
 		perm := rng.Perm(len(f.net.NodeIds))[:k]
 		var pend []*vC16Pending
+		var roundSubmits []crypto.Hash // submissions validated in this round, still pending
 		sameAsset := rng.Intn(3) == 0
 		var forced *verifgen.AssetInfo
 		conflictInfo := false
@@ -119,6 +122,35 @@ func TestVerif_C16(t *testing.T) {
 			nb := 1
 			if rng.Intn(3) == 0 {
 				nb = 2 + rng.Intn(3)
+			}
+			// a withdrawal claim: references a finalized submission, or one that is only pending in this round
+			if rng.Intn(5) == 0 && len(roundSubmits)+len(finalSubmits) > 0 {
+				var in *verifgen.Out
+				for _, o := range w.Outs {
+					if o.Asset == common.XINAssetId && verifgen.UnitsOf(o.Amount).Cmp(big.NewInt(20000)) > 0 {
+						in = o
+						break
+					}
+				}
+				if in != nil {
+					var submit crypto.Hash
+					kind := "withdrawal-claim"
+					if len(roundSubmits) > 0 && (len(finalSubmits) == 0 || rng.Intn(2) == 0) {
+						submit = roundSubmits[rng.Intn(len(roundSubmits))]
+						kind = "withdrawal-claim-of-pending-submission"
+					} else {
+						submit = finalSubmits[rng.Intn(len(finalSubmits))]
+					}
+					claimNo++
+					fee := big.NewInt(10000)
+					spec := w.Spec(verifgen.Units(new(big.Int).Sub(verifgen.UnitsOf(in.Amount), fee)), 2)
+					tx := verifgen.WithdrawalClaim(w.Custodian, submit, []*verifgen.Out{in}, []verifgen.OutSpec{spec}, verifgen.Units(fee), fmt.Sprint(claimNo))
+					w.Remove([]*verifgen.Out{in})
+					p.txs = append(p.txs, tx)
+					p.specs[tx.PayloadHash()] = []verifgen.OutSpec{{Type: common.OutputTypeWithdrawalClaim}, spec}
+					p.kinds = append(p.kinds, kind)
+					nb = 0
+				}
 			}
 			for b := 0; b < nb; b++ {
 				var tx *common.VersionedTransaction
@@ -202,6 +234,11 @@ func TestVerif_C16(t *testing.T) {
 			}
 			r.Count("batches_validated", 1)
 			pend = append(pend, p)
+			for i, kd := range p.kinds {
+				if kd == "withdrawal" {
+					roundSubmits = append(roundSubmits, p.txs[i].PayloadHash())
+				}
+			}
 		}
 		if len(pend) > 1 {
 			r.Count("rounds_with_several_pending_snapshots", 1)
@@ -261,8 +298,11 @@ func TestVerif_C16(t *testing.T) {
 				continue
 			}
 			finalizedCount++
-			for _, tx := range p.txs {
+			for i, tx := range p.txs {
 				w.Applied(tx, p.specs[tx.PayloadHash()])
+				if p.kinds[i] == "withdrawal" {
+					finalSubmits = append(finalSubmits, tx.PayloadHash())
+				}
 			}
 			if r.SampleCount() < 4 {
 				r.Sample(map[string]any{"chain": p.snap.NodeId.String(), "round": p.snap.RoundNumber, "kinds": p.kinds, "finalized": true})
